@@ -213,6 +213,8 @@ struct Rec {
     /// (name, decl the name currently denotes in this record, declaring decl)
     fields: Vec<(String, DeclId, Ty)>,
     parents: Vec<usize>,
+    /// fields overridden by a body `let` here: what the name denotes afterwards is left open by the property
+    overridden: Vec<String>,
 }
 
 #[derive(Debug, Clone)]
@@ -335,16 +337,52 @@ impl<'p> Emitter<'p> {
     }
 
     fn find_field(&self, rec: usize, name: &str) -> Option<(DeclId, Ty)> {
+        self.find_field_clean(rec, name).map(|(d, t, _)| (d, t))
+    }
+
+    /// (declaration, type, no override of the field lies on the lookup path)
+    fn find_field_clean(&self, rec: usize, name: &str) -> Option<(DeclId, Ty, bool)> {
         let r = &self.recs[rec];
+        let clean_here = !r.overridden.iter().any(|n| n == name);
         if let Some((_, d, t)) = r.fields.iter().rev().find(|(n, _, _)| n == name) {
-            return Some((*d, t.clone()));
+            return Some((*d, t.clone(), clean_here));
         }
         for &p in &r.parents {
-            if let Some(x) = self.find_field(p, name) {
-                return Some(x);
+            if let Some((d, t, c)) = self.find_field_clean(p, name) {
+                return Some((d, t, c && clean_here));
             }
         }
         None
+    }
+
+    /// is the value-namespace binding of `name` one the property defines (no field override on the path)
+    fn lookup_is_clean(&self, name: &str) -> bool {
+        for sc in self.scopes.iter().rev() {
+            match sc {
+                Scope::Block { vars } | Scope::Multiclass { vars, .. } => {
+                    if vars.iter().any(|(n, _)| n == name) {
+                        return true;
+                    }
+                    if let Scope::Multiclass { targs, .. } = sc {
+                        if targs.iter().any(|(n, _)| n == name) {
+                            return true;
+                        }
+                    }
+                }
+                Scope::Record { rec, vars } => {
+                    if vars.iter().any(|(n, _)| n == name) {
+                        return true;
+                    }
+                    if let Some((_, _, clean)) = self.find_field_clean(*rec, name) {
+                        return clean;
+                    }
+                    if self.recs[*rec].targs.iter().any(|(n, _)| n == name) {
+                        return true;
+                    }
+                }
+            }
+        }
+        true
     }
 
     /// value-namespace lookup
@@ -499,7 +537,8 @@ impl<'p> Emitter<'p> {
             }
             E::Id(n) => {
                 let t = self.lookup(n);
-                self.use_of(n, t, true);
+                let clean = self.lookup_is_clean(n);
+                self.use_of(n, t, clean);
             }
             E::ClassVal(c, args, named) => {
                 let target = self.classes.get(c).and_then(|r| self.class_decl.get(r)).copied();
@@ -514,9 +553,11 @@ impl<'p> Emitter<'p> {
                 let rec = self.rec_of(base);
                 self.expr(base);
                 self.w(".");
-                let target = rec.and_then(|r| self.find_field(r, f)).map(|(d, _)| d);
-                // only judged when the reference can type the base and finds the field
-                self.use_of(f, target, rec.is_some() && target.is_some());
+                let found = rec.and_then(|r| self.find_field_clean(r, f));
+                let target = found.as_ref().map(|(d, _, _)| *d);
+                // only judged when the reference can type the base, finds the field, and no override lies on the path
+                let clean = found.as_ref().map(|(_, _, c)| *c).unwrap_or(false);
+                self.use_of(f, target, rec.is_some() && clean);
             }
             E::List(xs) => {
                 self.w("[");
@@ -733,6 +774,9 @@ impl<'p> Emitter<'p> {
                     let s = self.pos();
                     // an undeclared let target is not in the property's list: recorded, not judged
                     self.use_of(name, found.as_ref().map(|(d, _)| *d), found.is_some());
+                    if found.is_some() {
+                        self.recs[rec].overridden.push(name.clone());
+                    }
                     if let Some((orig, ty)) = found {
                         let range = (s, s + name.len());
                         // the override is an outline child of this record and carries a type hint
